@@ -39,7 +39,7 @@ func run(c *hlib.Ctx) {
 			[]string{"Lc", "La", "D1", "Dc", "C", "M", "Mr", "R"}, c.N(2, 3))
 	}
 	lakeh.RunPlan(c, lakeh.Plan{
-		Opt:      lakeh.Options{Prop: "C15", StopOnFail: true},
+		Opt:      lakeh.Options{Prop: "C15", StopOnFail: true, ColdOps: true, PruneSnaps: true},
 		Profiles: []lakeh.Profile{guarded, open},
 		Quick:    50, Thorough: 1500,
 	})
